@@ -29,6 +29,11 @@ def main():
             r = n.run([['analyze', 'opt' if False else rec.get('category', 'opt'), rec.get('detector') or rec.get('pattern'), n.file(src)]])[0]
             print('real analyze -> %s ; expected %s' % (r, rec.get('expected')))
             same = r[0] != 'OK' or [int(x) for x in r[1].split(',') if x] != rec.get('expected')
+        elif job == 'analyze_between':
+            r = n.run([['analyze', rec['category'], rec['detector'], n.file(rec['source'])]])[0]
+            got = [int(x) for x in r[1].split(',') if x] if r[0] == 'OK' else None
+            print('real analyze -> %s ; lines on which flagged constructs begin: %s ; lines on which a construct of the pattern may begin: %s' % (r, rec['must'], rec['may']))
+            same = got is None or any(l not in got for l in rec['must']) or any(l not in rec['may'] for l in got)
         elif job == 'line':
             r = n.run([['line', str(rec['offset']), hexs(rec['text'])]])[0]
             print('get_line_number(%d, %r) -> %s ; expected %s' % (rec['offset'], rec['text'], r, rec['expected']))
@@ -68,6 +73,75 @@ def main():
             r = n.run([['threads', rec['category'], rec['detector'], pa, pb, str(rec.get('threads', 8)), str(rec.get('iterations', 300))]])[0]
             print('8 threads on two files -> %s' % (r,))
             same = r[0] != 'OK'
+        elif job == 'solstat' and 'config' in rec:
+            binary = os.path.join(w.build, 'solstat')
+            d = os.path.join(n.dir, 'bin')
+            os.makedirs(os.path.join(d, 'proj'))
+            open(os.path.join(d, 'proj', 'Sel.sol'), 'w').write(rec['source'])
+            open(os.path.join(d, 'cfg.toml'), 'w').write(rec['config'])
+            p = subprocess.run([binary, '--toml', 'cfg.toml'], cwd=d, stdout=subprocess.PIPE, stderr=subprocess.PIPE, text=True)
+            rp = os.path.join(d, 'solstat_report.md')
+            rep = open(rp).read() if os.path.exists(rp) else None
+            print('configuration:\n%s\nsolstat --toml cfg.toml -> exit status %d, report %s' % (rec['config'], p.returncode, 'absent' if rep is None else 'of %d bytes, entries %r' % (
+                len(rep), [ln for ln in rep.split('\n') if ln.startswith('- ')][:12])))
+            same = (rep or '')[:300] == (rec.get('observed') or '')
+        elif job == 'solstat' and 'creation_orders' in rec:
+            import shutil
+            binary = os.path.join(w.build, 'solstat')
+            shm = '/dev/shm' if os.path.isdir('/dev/shm') and os.access('/dev/shm', os.W_OK) else n.dir
+            base = tempfile.mkdtemp(prefix='solstat-verif-replay-', dir=shm)
+            reports = []
+            try:
+                for i, order in enumerate(rec['creation_orders']):
+                    proj, cwd = os.path.join(base, 'h%d' % i, 'proj'), os.path.join(base, 'h%d' % i, 'cwd')
+                    os.makedirs(proj); os.makedirs(cwd)
+                    for rel in order:
+                        os.makedirs(os.path.dirname(os.path.join(proj, rel)), exist_ok=True)
+                        open(os.path.join(proj, rel), 'w').write(rec['files'][rel])
+                    p = subprocess.run([binary, '--path', '../proj'], cwd=cwd, stdout=subprocess.PIPE, stderr=subprocess.PIPE)
+                    rp = os.path.join(cwd, 'solstat_report.md')
+                    reports.append(open(rp, 'rb').read() if p.returncode == 0 and os.path.exists(rp) else ('exit %d' % p.returncode).encode())
+            finally:
+                shutil.rmtree(base, ignore_errors=True)
+            print('the same files created in two orders -> reports of %r bytes, %s' % ([len(r) for r in reports], 'identical' if len(set(reports)) == 1 else 'DIFFERENT'))
+            same = len(set(reports)) > 1
+        elif job == 'solstat' and 'runs' in rec:
+            binary = os.path.join(w.build, 'solstat')
+            proj = os.path.join(n.dir, 'proj')
+            for rel, text in rec['files'].items():
+                os.makedirs(os.path.dirname(os.path.join(proj, rel)), exist_ok=True)
+                open(os.path.join(proj, rel), 'w').write(text)
+            seen = set()
+            for i in range(int(rec['runs'])):
+                cwd = os.path.join(n.dir, 'cwd%d' % i)
+                os.makedirs(cwd)
+                p = subprocess.run([binary, '--path', proj], cwd=cwd, stdout=subprocess.PIPE, stderr=subprocess.PIPE)
+                rp = os.path.join(cwd, 'solstat_report.md')
+                seen.add(open(rp, 'rb').read() if p.returncode == 0 and os.path.exists(rp) else ('exit %d' % p.returncode).encode())
+            print('%d runs over the same directory -> %d different reports' % (int(rec['runs']), len(seen)))
+            same = len(seen) > 1
+        elif job == 'solstat_dirs':
+            import re
+            binary = os.path.join(w.build, 'solstat')
+            d = os.path.join(n.dir, 'dirs')
+            text = 'pragma solidity 0.8.16;\ncontract Sel {\n    uint256 st; function w() public { st = 1; }\n}\n'
+            os.makedirs(d)
+            for sub, fname in (('argdir', 'FromArg.sol'), ('cfgdir', 'FromConfig.sol')) + ((('contracts', 'FromDefault.sol'),) if rec['contracts'] else ()):
+                os.makedirs(os.path.join(d, sub))
+                open(os.path.join(d, sub, fname), 'w').write(text)
+            open(os.path.join(d, 'afile'), 'w').write(text)
+            cmd = [binary]
+            if rec['arg'] != 'none':
+                cmd += ['--path', {'dir': 'argdir', 'missing': 'no-such-dir', 'file': 'afile'}[rec['arg']]]
+            if rec['cfg'] != 'none':
+                open(os.path.join(d, 'cfg.toml'), 'w').write('path = "%s"\noptimizations = ["sstore"]\nvulnerabilities = []\nqa = []\n' % {'dir': 'cfgdir', 'missing': 'no-such-cfg-dir'}[rec['cfg']])
+                cmd += ['--toml', 'cfg.toml']
+            p = subprocess.run(cmd, cwd=d, stdout=subprocess.PIPE, stderr=subprocess.PIPE, text=True)
+            rp = os.path.join(d, 'solstat_report.md')
+            rep = open(rp).read() if os.path.exists(rp) else ''
+            listed = sorted(set(re.findall(r'^- (From\w+\.sol):\d+$', rep, re.M)))
+            print('%s -> exit status %d, files listed in the report: %r' % (' '.join(cmd[1:]) or '(no arguments)', p.returncode, listed))
+            same = p.returncode == rec.get('exit') and rep[:300] == rec.get('observed')
         elif job == 'analyze_dir_files':
             from . import dirlib as dl
             import shutil
